@@ -45,13 +45,20 @@ def sigToken (g : Sig) (obs : List Obs) (s : St) : String :=
     head ++ String.intercalate "," brk ++ ",cb=" ++ (if cbs.isEmpty then "-" else String.intercalate "+" cbs)
       ++ ",rearm=" ++ (if re.isEmpty then "-" else String.join re) ++ ")" ++ stateStr s
 
-def evToken (e : Ev) (obs : List Obs) (s : St) : String :=
+/-- hook-point names of a macro's steps, in the layout's order -/
+def stepNames (L : Layout) : Macro → List String
+  | .reg _ _ =>
+    if L.regClearFirst then ["sh.set.after_handler_clear", "sh.set.after_data", "sh.set.after_handler"]
+    else ["sh.set.after_handler", "sh.set.after_data"]
+  | m => (expand L m).map microName
+
+def evToken (e : Ev) (name : String) (obs : List Obs) (s : St) : String :=
   match e with
   | .sig g => sigToken g obs s
   | .step .work =>
     let q := obs.filterMap (fun o => match o with | .query b => some (b01 b) | _ => none)
     "W(q=" ++ String.join q ++ ")" ++ stateStr s
-  | .step m => microName m ++ stateStr s
+  | .step _ => name ++ stateStr s
 
 def parseMacro (t : String) : Option Macro :=
   match t.splitOn ":" with
@@ -75,12 +82,22 @@ def parseMode : String → Option Mode
   | "sysv" => some .sysv
   | _ => none
 
-def renderTrace : List (Ev × List Obs × St) → List String
-  | [] => ["end"]
-  | (e, obs, s) :: r =>
-    if s.halted.isSome then [evToken e obs s] else evToken e obs s :: renderTrace r
+def renderTrace : List String → List (Ev × List Obs × St) → List String
+  | _, [] => ["end"]
+  | names, (e, obs, s) :: r =>
+    let (name, names') := match e with
+      | .step _ => (names.headD "?", names.drop 1)
+      | .sig _ => ("", names)
+    if s.halted.isSome then [evToken e name obs s] else evToken e name obs s :: renderTrace names' r
 
-def handleLine (line : String) : String :=
+def parseLayout : String → Option Layout
+  | "pinned" => some ⟨false, false⟩
+  | "ctorfix" => some ⟨true, false⟩
+  | "regfix" => some ⟨false, true⟩
+  | "fixed" => some ⟨true, true⟩
+  | _ => none
+
+def handleLine (L : Layout) (line : String) : String :=
   let toks := (line.trimAscii.toString.splitOn " ").filter (· ≠ "")
   match toks with
   | [] => "bad-op"
@@ -89,20 +106,24 @@ def handleLine (line : String) : String :=
     let schT := (rest.dropWhile (· ≠ "|")).drop 1
     match parseMode m, progT.mapM parseMacro, schT.mapM parseSched with
     | some md, some prog, some sch =>
-      let micros := expandProg prog
-      if wfProg prog && validSched micros.length sch then
-        String.intercalate " " (("start" ++ stateStr init) :: renderTrace (trace md init (schedule micros 0 sch)))
+      let micros := expandProg L prog
+      let names := (prog.map (stepNames L)).flatten
+      if wfProg L prog && validSched micros.length sch then
+        String.intercalate " " (("start" ++ stateStr init) :: renderTrace names (trace md init (schedule micros 0 sch)))
       else "bad-op"
     | _, _, _ => "bad-op"
 
-partial def loop (h : IO.FS.Stream) (out : IO.FS.Stream) : IO Unit := do
+partial def loop (L : Layout) (h : IO.FS.Stream) (out : IO.FS.Stream) : IO Unit := do
   let line ← h.getLine
   if line.isEmpty then return ()
-  if line.trimAscii.toString.isEmpty then loop h out
+  if line.trimAscii.toString.isEmpty then loop L h out
   else
-    out.putStrLn (handleLine line)
-    loop h out
+    out.putStrLn (handleLine L line)
+    loop L h out
 
-def main : IO Unit := do
+/-- `drv_c15 [pinned|ctorfix|regfix|fixed]` (default pinned): the store order the model uses -/
+def main (args : List String) : IO UInt32 := do
   let out ← IO.getStdout
-  loop (← IO.getStdin) out
+  match parseLayout (args.headD "pinned") with
+  | some L => loop L (← IO.getStdin) out; return 0
+  | none => IO.eprintln "unknown layout"; return 2
